@@ -37,6 +37,9 @@ namespace SigpyVerif.C03
 theorem gen_positive_agree (s : List Int) : Gen.checkShapePositive s = s.all (0 < ·) := by
   unfold Gen.checkShapePositive
   congr 1
+  -- `1 ≤ x` (the canonical spelling the translator emits), `0 < x`, `x > 0` are closed by `congr` up to unfolding; any other
+  -- spelling of "positive" (`¬ x ≤ 0`, `0 ≤ x - 1`, …) by linear arithmetic
+  all_goals (funext x; exact decide_eq_decide.mpr (by omega))
 
 /-- the generated `_check_linops_same_ishape` is the model's `sameShapes Op.ishape` -/
 theorem gen_same_ishape_agree {α} (l : List (Op α)) : Gen.checkLinopsSameIshape l = sameShapes Op.ishape l := by
